@@ -12,9 +12,10 @@
    Identifiers: a frame id is represented by the seq of the frame that carries it (unique in a valid
    stream, C01); run ids and artifact ids are first-appearance ordinals; a reply text is a code with
    0 = the empty string (the harness maps distinct strings to distinct codes).
-   `fixed` selects the checkpoint visibility rule: true = the code after the S9 repair (a checkpoint
-   frame is visible only if its own seq is at or before the cut), false = the code before it
-   (`to_seq <= cut` only). *)
+   `fixed` selects the checkpoint visibility rule: false = the code as it is (`to_seq <= cut` only;
+   S9: a checkpoint frame appended after the cut is visible), true = the repaired rule the property
+   asks for (the frame's own seq must also be at or before the cut).  The case files evaluate the
+   faithful rule (`code_params`); the theorems cover both. *)
 From RipV Require Import Base.Prelude.
 
 Inductive body :=
@@ -129,6 +130,10 @@ Definition ckpt_of (f : frame) : option ckpt :=
   end.
 Definition eligible (fixed : bool) (from : N) (c : ckpt) : bool :=
   (ck_to c <=? from) && (if fixed then ck_seq c <=? from else true).
+
+(* the checkpoint frames a compile for cut `from` can see *)
+Definition visible (fixed : bool) (from : N) (f : frame) : bool :=
+  match ckpt_of f with Some c => eligible fixed from c | None => false end.
 
 (* latest_compaction_checkpoint_for_compile_v1 (truth loop): larger to_seq wins, on a tie the later frame *)
 Definition latest_step (fixed : bool) (from : N) (best : option ckpt) (f : frame) : option ckpt :=
@@ -328,8 +333,9 @@ Record case := {
   c_anchor : N;
   c_expect : list N }.
 
+(* the code as it is: checkpoints are selected by `to_seq <= from_seq` alone (S9, open finding) *)
 Definition code_params (limit max_refs : N) : params :=
-  {| p_limit := N.to_nat limit; p_max_refs := N.to_nat max_refs; p_fixed := true |}.
+  {| p_limit := N.to_nat limit; p_max_refs := N.to_nat max_refs; p_fixed := false |}.
 
 Definition model_obs (limit max_refs : N) (c : case) : list N :=
   enc_outcome (compile (code_params limit max_refs) (texts_of (c_runs c)) (c_log c) (c_anchor c)).
